@@ -359,7 +359,7 @@ class FnTr:
         if e.ty == 'Bool':
             return e
         if e.ty == 'A':
-            return self.combine([e], lambda p: E('(PyRtC15.truthy %s)' % p[0], 'Bool'))
+            return self.combine([e], lambda p: E('(!(%s == (0 : α)))' % p[0], 'Bool'))
         if e.ty == 'Int':
             return self.combine([e], lambda p: E('(!(%s == 0))' % p[0], 'Bool'))
         raise Unsupported(n, 'truth value of %s' % e.ty)
